@@ -1,5 +1,7 @@
 #!/bin/sh
 # usage: tools/vu.sh UNIT [extra verus args]   -- assemble and run verus, human-readable output
+# (works from any copy of this directory tree: paths are relative to the script)
 U=$1; shift
-cd /verif && python3 tools/extract.py $U || exit 2
-( cd /verif/.cache/units && verus $U.rs --edition 2024 --multiple-errors 5 "$@" 2>&1 | python3 /verif/tools/vfilter.py )
+ROOT=$(cd "$(dirname "$0")/.." && pwd)
+cd "$ROOT" && python3 tools/extract.py $U || exit 2
+( cd "$ROOT/.cache/units" && verus $U.rs --edition 2024 --multiple-errors 5 "$@" 2>&1 | python3 "$ROOT/tools/vfilter.py" )
